@@ -386,13 +386,20 @@ func (o *OptInfo) Display() string {
 
 // ---- tag rendering ----
 
+// TagQuoter renders a tag value as a Go string literal; C19 replaces it with a
+// spelling that varies the escapes.
+var TagQuoter = strconv.Quote
+
+// TagSep renders the separator between two key:"value" pairs.
+var TagSep = func() string { return " " }
+
 func tagKV(sb *strings.Builder, k, v string) {
 	if sb.Len() > 0 {
-		sb.WriteByte(' ')
+		sb.WriteString(TagSep())
 	}
 	sb.WriteString(k)
 	sb.WriteByte(':')
-	sb.WriteString(strconv.Quote(v))
+	sb.WriteString(TagQuoter(v))
 }
 
 func (o *Opt) Tag() string {
